@@ -157,11 +157,43 @@ pub fn run(cfg: &Cfg, rep: &mut Report) {
     ] {
         fixed.push((p.to_string(), fl(f)));
     }
-    let spec = StreamSpec { n_struct: cfg.scaled(if cfg.quick() { 10_000 } else { 300_000 }), enum_nodes: if cfg.quick() { 2 } else { 3 }, enum_flags: vec![fl(""), fl("iu")], tweak, fixed };
+    let spec = StreamSpec { n_struct: cfg.scaled(if cfg.quick() { 10_000 } else { 300_000 }), enum_nodes: if cfg.quick() { 2 } else { 3 }, enum_flags: vec![fl(""), fl("iu")], tweak, fixed, templates: true };
     let opts = DriveOpts { budget: if cfg.quick() { 120 } else { 300 }, n_long: 3, n_plant: 2, ascii_only: false, sample_every: 199 };
     drive(&C14, cfg, rep, &spec, &opts);
     if cfg.replay.is_some() {
         return;
+    }
+    // ---- surrogate code points are only reachable through the UCS-2 entry point: gc=Cs and its
+    // complement must be exact there (C11 cannot see them through UTF-8 haystacks)
+    if cfg.shard == 0 {
+        let all: Vec<u16> = (0xD7F0u16..=0xE00F).collect();
+        for (pat, flags, want_sur) in [("\\p{Cs}", "u", true), ("\\p{gc=Surrogate}", "v", true), ("\\P{Cs}", "u", false), ("[^\\p{Cs}]", "u", false), ("\\p{Any}", "u", true), ("\\p{Assigned}", "u", true)] {
+            let pat = pat.replace("\\\\", "\\");
+            if let Guarded::Ok(Ok(re)) = engine::compile(&engine::to_cps(&pat), fl(flags), false) {
+                if let Guarded::Ok(ms) = collect16(&re, &all, 0, true) {
+                    let matched: std::collections::HashSet<u16> = ms.iter().filter(|m| m.range.1 == m.range.0 + 1).map(|m| all[m.range.0]).collect();
+                    rep.inc("ucs2_surrogate_property_probes");
+                    rep.eval(fnv64(pat.as_bytes()), true);
+                    let mut bad = None;
+                    for &u in &all {
+                        let is_sur = (0xD800..=0xDFFF).contains(&u);
+                        let expect = match (pat.as_str(), is_sur) {
+                            ("\\p{Any}", _) => true,
+                            ("\\p{Assigned}", s) => s || (0xD7F0..=0xD7FB).contains(&u) || u >= 0xE000,
+                            (_, s) => s == want_sur,
+                        };
+                        // U+D7FC..D7FF are unassigned; U+D7F0..D7FB (Hangul Jamo Extended-B) and the private use area are assigned
+                        if matched.contains(&u) != expect {
+                            bad = Some(u);
+                            break;
+                        }
+                    }
+                    if let Some(u) = bad {
+                        rep.violation(violation("C14", "a property escape evaluated on UCS-2 input disagrees with Unicode for a code unit around the surrogate range", J::obj().set("pattern", pat.as_str()).set("flags", flags).set("unit", u as u32).set("check", "c14"), format!("matched = {}", matched.contains(&u)), "as gc=Cs is exactly U+D800..U+DFFF".into()));
+                    }
+                }
+            }
+        }
     }
     // ---- arbitrary u16 input: lone / reversed / trailing surrogates, starts everywhere
     let pats: Vec<(&str, &str)> = vec![
